@@ -1,3 +1,190 @@
+import QmiModel.Model.Frame
 import Drv.Common
-/-! stub driver for C06: replaced when the model is built -/
-def main : IO Unit := Drv.main' (fun (s : Unit) _ => (s, "bad-op")) ()
+/-! Line-protocol driver for the C06 model (`QmiModel.Frame`).  One output line per input line.
+
+```
+init <ctx> <max>                               -> ok          (new world: own context name, MAX_MESSAGE_SIZE)
+hadd <obj> <accept|refuse|crash|crashOnErr|refuseReq> / hdel <obj>   -> ok
+def <payloadhex> hs <name|-> <ver> <0|1> | msg <q|p|e|o> <rid> <sctx> <sobj> <dctx> <dobj> <tag> | notmsg | undec -> ok
+accept <id> <sendOk>                           -> <events> | <state>
+recv <id> <hex|->                              -> <events> | <state>       ("-" = recv returned b"")
+send <q|p|e|o> <rid> <sobj> <dctx> <dobj> <tag> <payloadhex> <sendOk>     -> <events>
+disc <name>                                    -> <events> | exc:QMI_UnknownNameException
+connect <id> <name> <chunkhex>*                -> <events> | ok|exc:<err> | <state>
+state <id> / peers / frame <hex>
+```
+-/
+open QmiModel.Frame
+
+namespace C06
+
+def parseName (s : String) : Option (Option Name) :=
+  if s == "-" then some none
+  else match s.toList with
+    | 'n' :: ds => (String.ofList ds).toNat?.map (fun k => some (Name.ctx k))
+    | 'c' :: ds => (String.ofList ds).toNat?.map (fun k => some (Name.client k))
+    | _ => none
+
+def parseName1 (s : String) : Option Name :=
+  match parseName s with
+  | some (some n) => some n
+  | _ => none
+
+def showName : Name → String
+  | .ctx k => s!"n{k}"
+  | .client k => s!"c{k}"
+
+def showOName : Option Name → String
+  | none => "-"
+  | some n => showName n
+
+def parseKind : String → Option Kind
+  | "q" => some .request | "p" => some .reply | "e" => some .errReply | "o" => some .other | _ => none
+
+def showKind : Kind → String
+  | .request => "q" | .reply => "p" | .errReply => "e" | .other => "o"
+
+def parseHKind : String → Option HKind
+  | "accept" => some .accept | "refuse" => some .refuse | "crash" => some .crash
+  | "crashOnErr" => some .crashOnErr | "refuseReq" => some .refuseReq | _ => none
+
+def parseBool : String → Option Bool
+  | "0" => some false | "1" => some true | _ => none
+
+def showBody : Body → String
+  | .tag n => s!"t{n}"
+  | .closedWaiting p => s!"cw{showOName p}"
+  | .unknownDest => "ud" | .nonLocal => "nl" | .refused => "rf" | .unknownCtx => "uc" | .sendFailed => "sf"
+
+def showMsg (m : Msg) : String :=
+  s!"{showKind m.kind},{m.rid},{showName m.src.ctx},{m.src.obj},{showName m.dst.ctx},{m.dst.obj},{showBody m.body}"
+
+def showWhy : Why → String
+  | .marker => "marker" | .oversize => "oversize" | .undecodable => "undecodable" | .notMessage => "notmsg"
+  | .expectedHandshake => "nohs" | .serverHsFromClient => "hsdir-server" | .clientHsAsClient => "hsdir-client"
+  | .secondHandshake => "hs2" | .badDestination => "baddst" | .badSource => "badsrc"
+  | .handlerException => "exc:RuntimeError"
+
+def showBeh : Behaviour → String
+  | .accept => "a" | .refuse => "r" | .crash => "c"
+
+def showEv : Ev → String
+  | .deliver m b => s!"D:{showMsg m}:{showBeh b}"
+  | .undeliverable m b => s!"U:{showMsg m}:{showBody b}"
+  | .sentErr m => s!"E:{showMsg m}"
+  | .sent f => s!"S:{Drv.hex f}"
+  | .sentHs sv => s!"H:{if sv then 1 else 0}"
+  | .violation w => s!"X:{showWhy w}"
+  | .eof => "Z"
+  | .removed a => s!"R:{showName a}"
+  | .escaped => "!"
+
+def showEvs (es : List Ev) : String :=
+  if es.isEmpty then "-" else " ".intercalate (es.map showEv)
+
+def showPend (l : List (Nat × Addr × Addr)) : String :=
+  if l.isEmpty then "-" else
+  ",".intercalate (l.map fun e => s!"{e.1}/{e.2.1.obj}/{showName e.2.2.ctx}/{e.2.2.obj}")
+
+def showState (w : World) (id : Nat) : String :=
+  match w.conns.lookup id with
+  | none => "noconn"
+  | some c =>
+    let known := (w.peers.lookup c.st.alias) == some id
+    let ver := match c.st.ver with | none => "-" | some v => toString v
+    s!"closed={if c.closed then 1 else 0} buf={c.buf.length} alias={showName c.st.alias} peer={showOName c.st.peer} ver={ver} pend={showPend c.st.pending} known={if known then 1 else 0}"
+
+def showHsErr : HsErr → String
+  | .marker => "marker" | .oversize => "oversize" | .eofBeforeHandshake => "eof"
+  | .proc w => showWhy w | .peerNone => "peernone" | .needMore => "needmore"
+
+def showConnectErr : ConnectErr → String
+  | .duplicate => "duplicate" | .hs e => showHsErr e | .wrongName => "wrongname"
+
+def parseDecoded : List String → Option Decoded
+  | ["hs", n, v, sv] => do
+    let n ← parseName n; let v ← v.toNat?; let sv ← parseBool sv
+    pure (.handshake n v sv)
+  | ["msg", k, rid, sc, so, dc, dobj, tag] => do
+    let k ← parseKind k; let rid ← rid.toNat?; let sc ← parseName1 sc; let so ← so.toNat?
+    let dc ← parseName1 dc; let dobj ← dobj.toNat?; let tag ← tag.toNat?
+    pure (.msg { kind := k, rid, src := ⟨sc, so⟩, dst := ⟨dc, dobj⟩, body := .tag tag })
+  | ["notmsg"] => some .notMessage
+  | ["undec"] => some .undecodable
+  | _ => none
+
+def unhexAll : List String → Option (List Bytes)
+  | [] => some []
+  | s :: rest => do
+    let b ← Drv.unhex s
+    let bs ← unhexAll rest
+    pure (b :: bs)
+
+def stepLine (w : World) (line : String) : World × String :=
+  match line.splitOn " " with
+  | ["init", n, mx] =>
+    match parseName1 n, mx.toNat? with
+    | some n, some mx => (World.init n mx, "ok")
+    | _, _ => (w, "bad-op")
+  | ["hadd", obj, hk] =>
+    match obj.toNat?, parseHKind hk with
+    | some o, some h =>
+      ({ w with env := { w.env with handlers := (o, h) :: w.env.handlers.filter (fun e => e.1 != o) } }, "ok")
+    | _, _ => (w, "bad-op")
+  | ["hdel", obj] =>
+    match obj.toNat? with
+    | some o => ({ w with env := { w.env with handlers := w.env.handlers.filter (fun e => e.1 != o) } }, "ok")
+    | none => (w, "bad-op")
+  | "def" :: hx :: rest =>
+    match Drv.unhex hx, parseDecoded rest with
+    | some p, some d =>
+      let old := w.env.decode
+      ({ w with env := { w.env with decode := fun q => if q == p then d else old q } }, "ok")
+    | _, _ => (w, "bad-op")
+  | ["accept", id, ok] =>
+    match id.toNat?, parseBool ok with
+    | some id, some ok =>
+      let r := w.accept id ok
+      (r.1, s!"{showEvs r.2} | {showState r.1 id}")
+    | _, _ => (w, "bad-op")
+  | ["recv", id, hx] =>
+    match id.toNat?, Drv.unhex hx with
+    | some id, some d =>
+      let r := w.recv id d
+      (r.1, s!"{showEvs r.2} | {showState r.1 id}")
+    | _, _ => (w, "bad-op")
+  | ["send", k, rid, so, dc, dobj, tag, hx, ok] =>
+    match parseKind k, rid.toNat?, so.toNat?, parseName1 dc, dobj.toNat?, tag.toNat?, Drv.unhex hx, parseBool ok with
+    | some k, some rid, some so, some dc, some dobj, some tag, some p, some ok =>
+      let m : Msg := { kind := k, rid, src := ⟨w.env.ctxName, so⟩, dst := ⟨dc, dobj⟩, body := .tag tag }
+      let r := w.send m p ok
+      (r.1, showEvs r.2)
+    | _, _, _, _, _, _, _, _ => (w, "bad-op")
+  | ["disc", n] =>
+    match parseName1 n with
+    | some n =>
+      match w.disconnect n with
+      | some r => (r.1, showEvs r.2)
+      | none => (w, "exc:QMI_UnknownNameException")
+    | none => (w, "bad-op")
+  | "connect" :: id :: n :: chunks =>
+    match id.toNat?, parseName1 n, unhexAll chunks with
+    | some id, some n, some chunks =>
+      let r := w.connect id n chunks
+      let res := match r.2.2 with | none => "ok" | some e => s!"exc:{showConnectErr e}"
+      (r.1, s!"{showEvs r.2.1} | {res} | {showState r.1 id}")
+    | _, _, _ => (w, "bad-op")
+  | ["state", id] =>
+    match id.toNat? with
+    | some id => (w, showState w id)
+    | none => (w, "bad-op")
+  | ["peers"] => (w, if w.peers.isEmpty then "-" else " ".intercalate (w.peers.map fun e => s!"{showName e.1}={e.2}"))
+  | ["frame", hx] =>
+    match Drv.unhex hx with
+    | some p => (w, Drv.hex (frame p))
+    | none => (w, "bad-op")
+  | _ => (w, "bad-op")
+
+end C06
+
+def main : IO Unit := Drv.main' C06.stepLine (World.init (.ctx 0) 0)
